@@ -248,6 +248,17 @@ Theorem C13_rounded_tie : forall (d : nat) (x : Q) (k : Z), 0 <= x -> x * pow10 
   round_q R05Up d x == inject_Z (if (k mod 5 =? 0)%Z then k + 1 else k) / pow10 d.
 Proof. exact round_q_tie. Qed.
 
+(* 0.125 and 0.135 to two decimals (k = 12 even, k = 13 odd), and their mirror images *)
+Example C13_rounded_tie_example :
+  (1 # 8) * pow10 2 == inject_Z 12 + (1 # 2) /\
+  map (fun m => Qred (round_q m 2 (1 # 8))) [RHalfUp; RHalfDown; RHalfEven; RUp; RDown; RCeiling; RFloor; R05Up]
+    = [13 # 100; 3 # 25; 3 # 25; 13 # 100; 3 # 25; 13 # 100; 3 # 25; 3 # 25] /\
+  map (fun m => Qred (round_q m 2 (27 # 200))) [RHalfUp; RHalfDown; RHalfEven]
+    = [7 # 50; 13 # 100; 7 # 50] /\
+  map (fun m => Qred (round_q m 2 (- (1 # 8)))) [RHalfUp; RHalfDown; RHalfEven; RUp; RDown; RCeiling; RFloor; R05Up]
+    = [- (13 # 100); - (3 # 25); - (3 # 25); - (13 # 100); - (3 # 25); - (3 # 25); - (13 # 100); - (3 # 25)].
+Proof. vm_compute. repeat split; reflexivity. Qed.
+
 (* negative counts round as the mirror image (ceiling and floor trade places): with C13_rounded_tie, ties of negative counts *)
 Theorem C13_rounded_sign : forall (m : rmode) (d : nat) (x : Q), round_q m d (- x) == - round_q (mirror m) d x.
 Proof. exact round_q_opp. Qed.
